@@ -73,7 +73,7 @@ theorem inv_step (s s' : Dc) (e : DcEv) (h : Inv s) (hs : s.step e = some s') : 
     · rw [if_neg hr] at hs; cases hs
   | connectCb =>
     simp only [Dc.step] at hs
-    by_cases hp : s.pending
+    by_cases hp : s.pending ∧ ¬ s.closing
     · rw [if_pos hp] at hs; simp only [Option.some.injEq] at hs; subst hs
       exact ⟨by simp, by simp, by simp, by simp, by simp⟩
     · rw [if_neg hp] at hs; cases hs
@@ -85,7 +85,7 @@ theorem inv_step (s s' : Dc) (e : DcEv) (h : Inv s) (hs : s.step e = some s') : 
     · rw [if_neg hc] at hs; cases hs
   | regOk =>
     simp only [Dc.step] at hs
-    by_cases hc : s.up ∧ s.srpc
+    by_cases hc : (s.up ∨ s.closing) ∧ s.srpc
     · rw [if_pos hc] at hs; simp only [Option.some.injEq] at hs; subst hs
       obtain ⟨i0, i2, i3, i4, i5⟩ := sendReg_inv s hall
       have hf := sendReg_fields s
@@ -100,19 +100,19 @@ theorem inv_step (s s' : Dc) (e : DcEv) (h : Inv s) (hs : s.step e = some s') : 
     · rw [if_neg hc] at hs; cases hs
   | regRefused =>
     simp only [Dc.step] at hs
-    by_cases hc : s.up ∧ s.srpc
+    by_cases hc : (s.up ∨ s.closing) ∧ s.srpc
     · rw [if_pos hc] at hs; simp only [Option.some.injEq] at hs; subst hs
       exact sendReg_inv s hall
     · rw [if_neg hc] at hs; cases hs
   | otherMsg =>
     simp only [Dc.step] at hs
-    by_cases hc : s.up ∧ s.srpc
+    by_cases hc : (s.up ∨ s.closing) ∧ s.srpc
     · rw [if_pos hc] at hs; simp only [Option.some.injEq] at hs; subst hs
       exact sendReg_inv s hall
     · rw [if_neg hc] at hs; cases hs
   | disconnectCb =>
     simp only [Dc.step] at hs
-    by_cases hu : s.up
+    by_cases hu : s.up ∨ s.closing
     · rw [if_pos hu] at hs; simp only [Option.some.injEq] at hs; subst hs
       exact ⟨by simp, h2, by simp, by simp, by simp⟩
     · rw [if_neg hu] at hs; cases hs
@@ -144,6 +144,12 @@ theorem inv_step (s s' : Dc) (e : DcEv) (h : Inv s) (hs : s.step e = some s') : 
         · simpa using hf
     · rw [if_neg hc] at hs; simp only [Option.some.injEq] at hs; subst hs
       exact ⟨h0, h2, h3, h4, h5⟩
+  | lateData =>
+    simp only [Dc.step] at hs
+    by_cases hc : s.closing ∧ ¬ s.up ∧ ¬ s.srpc
+    · rw [if_pos hc] at hs; simp only [Option.some.injEq] at hs; subst hs
+      exact ⟨h0, h2, h3, h4, h5⟩
+    · rw [if_neg hc] at hs; cases hs
 
 theorem inv_run : ∀ (es : List DcEv) (s s' : Dc), Inv s → s.run es = some s' → Inv s' := by
   intro es
@@ -183,10 +189,111 @@ theorem c04_quiet_until_accepted (es : List DcEv) (s : Dc) (h : Dc.run {} es = s
 theorem c04_connect_starts_clean (s s' : Dc) (h : s.step .connectCb = some s') :
     s'.epoch = [] ∧ s'.registered = 0 ∧ s'.srpc ∧ s'.up ∧ (s'.sendReg).epoch = [DcFrame.reg] := by
   simp only [Dc.step] at h
-  by_cases hp : s.pending
+  by_cases hp : s.pending ∧ ¬ s.closing
   · rw [if_pos hp] at h; simp only [Option.some.injEq] at h; subst h
     simp [Dc.sendReg]
   · rw [if_neg hp] at h; cases h
+
+/-! ### bytes of a closed connection -/
+
+/-- bytes of an old connection can only sit in the receive staging buffer while the close of that connection is not yet reported -/
+def StaleInv (s : Dc) : Prop := s.stale = true → s.closing = true
+
+theorem staleInv_step (s s' : Dc) (e : DcEv) (h : StaleInv s) (hs : s.step e = some s') : StaleInv s' := by
+  unfold StaleInv at *
+  cases e <;> simp only [Dc.step] at hs
+  case start => simp only [Option.some.injEq] at hs; subst hs; exact h
+  case gotIp =>
+    split at hs <;> (simp only [Option.some.injEq] at hs; subst hs)
+    · intro hst; simp only at hst ⊢; simp [h hst]
+    · exact h
+  case dnsFound ok =>
+    split at hs
+    · split at hs <;> (simp only [Option.some.injEq] at hs; subst hs)
+      · intro hst; simp only at hst ⊢; simp [h hst]
+      · exact h
+    · cases hs
+  case connectCb =>
+    split at hs
+    · simp only [Option.some.injEq] at hs; subst hs; exact h
+    · cases hs
+  case iterate =>
+    split at hs
+    · simp only [Option.some.injEq] at hs; subst hs
+      unfold Dc.sendReg; split <;> exact h
+    · cases hs
+  case regOk =>
+    split at hs
+    · simp only [Option.some.injEq] at hs; subst hs
+      unfold Dc.sendReg; split <;> exact h
+    · cases hs
+  case regRefused =>
+    split at hs
+    · simp only [Option.some.injEq] at hs; subst hs
+      unfold Dc.sendReg; split <;> exact h
+    · cases hs
+  case otherMsg =>
+    split at hs
+    · simp only [Option.some.injEq] at hs; subst hs
+      unfold Dc.sendReg; split <;> exact h
+    · cases hs
+  case disconnectCb =>
+    split at hs
+    · simp only [Option.some.injEq] at hs; subst hs; intro hst; simp at hst
+    · cases hs
+  case reconFire =>
+    split at hs
+    · simp only [Option.some.injEq] at hs; subst hs
+      intro hst; simp only [Dc.stop] at hst ⊢; simp [h hst]
+    · cases hs
+  case stopFire =>
+    split at hs
+    · simp only [Option.some.injEq] at hs; subst hs
+      intro hst; simp only [Dc.stop] at hst ⊢; simp [h hst]
+    · cases hs
+  case localEv =>
+    split at hs <;> (simp only [Option.some.injEq] at hs; subst hs; exact h)
+  case lateData =>
+    split at hs
+    · rename_i hc; simp only [Option.some.injEq] at hs; subst hs; intro _; exact hc.1
+    · cases hs
+
+theorem staleInv_run : ∀ (es : List DcEv) (s s' : Dc), StaleInv s → s.run es = some s' → StaleInv s' := by
+  intro es
+  induction es with
+  | nil => intro s s' h hr; simp only [Dc.run, Option.some.injEq] at hr; subst hr; exact h
+  | cons e es ih =>
+    intro s s' h hr
+    simp only [Dc.run] at hr
+    cases hst : s.step e with
+    | none => rw [hst] at hr; cases hr
+    | some s1 => rw [hst] at hr; exact ih s1 s' (staleInv_step s s1 e h hst) hr
+
+/-- **C04 (no leftovers of the old connection)** in every history the SDK can deliver - including the server's last segments
+    arriving after the device itself asked for the close -, when a new connection is established the receive staging buffer
+    holds nothing of the old one: late data only arrives while the close is unreported, the close report clears the buffer, and
+    the next connection is only established after that report. -/
+theorem c04_no_stale_bytes_at_connect (es : List DcEv) (s s' : Dc) (h : Dc.run {} es = some s)
+    (hc : s.step .connectCb = some s') : s'.stale = false := by
+  have hi : StaleInv s := staleInv_run es {} s (by intro h; cases h) h
+  simp only [Dc.step] at hc
+  split at hc
+  · rename_i hp
+    simp only [Option.some.injEq] at hc; subst hc
+    simp only
+    cases hst : s.stale with
+    | false => rfl
+    | true => exact absurd (hi hst) hp.2
+  · cases hc
+
+/-- non-vacuity: refusal, the device closes, the acceptance of some earlier request arrives late, the close is reported, the
+    device is started again and connects -/
+example : (Dc.run {} [.start, .gotIp, .dnsFound true, .connectCb, .iterate, .regRefused, .stopFire, .lateData, .disconnectCb,
+                      .start, .gotIp, .dnsFound true, .connectCb]).map (fun s => (s.stale, s.closing, s.up)) = some (false, false, true) := by
+  decide
+/-- ... and the connect callback is not deliverable while the close is unreported -/
+example : Dc.run {} [.start, .gotIp, .dnsFound true, .connectCb, .iterate, .regRefused, .stopFire, .lateData,
+                     .start, .gotIp, .dnsFound true, .connectCb] = none := by decide
 
 /-- the source has the reset the model's connectCb relies on (extractor fact; without it a second connect
     that is not preceded by a stop keeps registered = 1 and the new connection carries no registration) -/
@@ -198,7 +305,7 @@ theorem c04_repo_connect_resets : Gen.dcConnectResets = true := by decide
 theorem c04_refusal_stops (s s1 s2 : Dc) (h1 : s.step .regRefused = some s1) (h2 : s1.step .stopFire = some s2) :
     s2.started = false ∧ s2.srpc = false ∧ s2.up = false ∧ s2.registered = 0 := by
   simp only [Dc.step] at h1
-  by_cases hc : s.up ∧ s.srpc
+  by_cases hc : (s.up ∨ s.closing) ∧ s.srpc
   · rw [if_pos hc] at h1; simp only [Option.some.injEq] at h1; subst h1
     simp only [Dc.step, if_true, Option.some.injEq] at h2; subst h2
     simp [Dc.stop]
